@@ -518,7 +518,7 @@ def standard_flow(ctx, feat, gen_cases, oracle=None, nontrivial=None, classify=N
     else:
         impl = ctx.run_impl(lines)
         mod = impl
-    ctx.last_lines, ctx.last_impl = lines, impl
+    ctx.last_lines, ctx.last_impl, ctx.last_model = lines, impl, mod
     cov = ctx.cov
     cov["evaluations"] += len(lines)
     cov["traces_validated_against_impl"] += len(lines) if model else 0
